@@ -91,7 +91,7 @@ void h_fe_small(void) {
     __CPROVER_assume(m >= 0 && m <= 31 && sa_fe_mag(&b, m)); FE_FIELDS(b, m, 0);
     r = b;
     secp256k1_fe_add_int(&r, v);
-    __CPROVER_assert(sa_cong_p(fval(&r), fval(&b) + W(v)), "C05 fe_add_int: r == r + a (mod p)");
+    __CPROVER_assert(fval(&r) == fval(&b) + W(v) || sa_cong_p(fval(&r), fval(&b) + W(v)), "C05 fe_add_int: r == r + a (mod p)");
     __CPROVER_assert(sa_fe_mag(&r, m + 1), "C05 fe_add_int: magnitude increases by at most 1");
     /* predicates on normalized input */
     __CPROVER_assume(sa_fe_canon(&a)); FE_FIELDS(a, 1, 1);
@@ -249,9 +249,9 @@ void h_fe_add(void) {
     /* 10x26: value(a) + value(b) = sum (a.n[i] + b.n[i]) 2^(26 i), written in the same Horner shape as fval: LIMB-WISE statement,
      * because the direct form fval(a) + fval(b) is a 320-bit adder-tree miter over 30 terms that did not finish in 300 s */
     { wide sv = 0; int i; for (i = SA_FE_NL - 1; i >= 0; i--) sv = (sv << SA_FE_LIMB_BITS) + (W(a0.n[i]) + W(b.n[i]));
-      __CPROVER_assert(sa_cong_p(fval(&r), sv), "C05 fe_add: r == r + a (mod p)"); }
+      __CPROVER_assert(fval(&r) == sv || sa_cong_p(fval(&r), sv), "C05 fe_add: r == r + a (mod p)"); }   /* "equal or congruent" = congruent; the first disjunct only shortens the proof */
 #else
-    __CPROVER_assert(sa_cong_p(fval(&r), fval(&a0) + fval(&b)), "C05 fe_add: r == r + a (mod p)");
+    __CPROVER_assert(fval(&r) == fval(&a0) + fval(&b) || sa_cong_p(fval(&r), fval(&a0) + fval(&b)), "C05 fe_add: r == r + a (mod p)");   /* "equal or congruent" = congruent; the first disjunct only shortens the proof */
 #endif
     __CPROVER_assert(sa_fe_mag(&r, ma + mb), "C05 fe_add: magnitudes add");
     if (!alias && ma == 16 && mb == 16) REACH("fe_add 16+16");
